@@ -51,6 +51,31 @@ structure Limits where
 
 def defaultLimits : Limits := ⟨4096, 512⟩
 
+/-! ## canonicalize_config.go: `CanonicalizeConfig.apply` folded over the option list of `Canonicalize` -/
+
+/-- One `CanonicalizeOption` value: which fields it sets (`SetHashFunc`, `SetBlankNodeStringProvider`,
+    `SetBuildCanonicalQuad`). Hash functions and providers are named by numbers. -/
+structure CanonOpt where
+  hash : Option Nat
+  prov : Option Nat
+  build : Option Bool
+  deriving Repr, DecidableEq
+
+/-- `apply`: a field is overwritten only when the option sets it (`!= nil`). -/
+def CanonOpt.apply (o d : CanonOpt) : CanonOpt :=
+  { hash := match o.hash with | some h => some h | none => d.hash
+    prov := match o.prov with | some p => some p | none => d.prov
+    build := match o.build with | some b => some b | none => d.build }
+
+/-- `Canonicalize(ctx, input, options...)`: `c := CanonicalizeConfig{}; for opt { opt.apply(&c) }`. -/
+def compileOpts (opts : List CanonOpt) : CanonOpt := opts.foldl (fun d o => o.apply d) ⟨none, none, none⟩
+
+/-- `newCanonicalizer`: the effective hash (`none` = the default `sha256.New`), blank node string provider
+    (`none` = the default `c14n%d` int64 provider) and build-canonical-quad flag (default off). -/
+def effectiveHash (opts : List CanonOpt) : Option Nat := (compileOpts opts).hash
+def effectiveProv (opts : List CanonOpt) : Option Nat := (compileOpts opts).prov
+def effectiveBuild (opts : List CanonOpt) : Bool := (compileOpts opts).build.getD false
+
 /-! ## canonicalize.go: identifierIssuer, and the int64 string provider behind the canonical issuer -/
 
 /-- `blanknodes.int64StringProvider`: `next` is `value + 1`. -/
